@@ -11,6 +11,7 @@ import (
 	"sort"
 	"strings"
 	"sync"
+	"sync/atomic"
 	"time"
 
 	"github.com/acquirecloud/golibs/timeout"
@@ -39,6 +40,9 @@ func init() { drivers["timerpanic"] = driveTimerPanic }
 func driveTimerPanic(opt *Options) error {
 	if opt.Extra["child"] == "1" {
 		return timerPanicChild(opt)
+	}
+	if opt.Extra["child"] == "defaults" {
+		return timerDefaultsChild(opt)
 	}
 	rnd := rand.New(rand.NewSource(opt.Seed))
 	tw, err := NewTraceWriter(opt.Out)
@@ -92,6 +96,22 @@ func driveTimerPanic(opt *Options) error {
 		}(k, sc)
 	}
 	wg.Wait()
+	// one more child: the package exactly as it comes up (no harness configuration of pool or wake channel at all)
+	{
+		raw := opt.Out + ".rawd"
+		defer os.Remove(raw)
+		cmd := exec.Command(os.Args[0], "drive", "timerpanic", "-out", raw, "-x", "child=defaults")
+		var stderr bytes.Buffer
+		cmd.Stderr = &stderr
+		if err := cmd.Run(); err != nil {
+			return fmt.Errorf("timerpanic: the child with the package defaults failed: %v\n%s", err, tailStr(stderr.String(), 1500))
+		}
+		evs, _, err := readRawTimerExecutions(raw)
+		if err != nil {
+			return err
+		}
+		results = append(results, res{evs: evs})
+	}
 	died, lived := 0, 0
 	for _, r := range results {
 		if r.err != nil {
@@ -223,5 +243,127 @@ func timerPanicChild(opt *Options) error {
 	time.Sleep(last + time.Duration(quiesce)*time.Microsecond + 200*time.Millisecond)
 	emit(map[string]any{"e": "Quiesce", "t": now()})
 	emit(map[string]any{"e": "Done"})
+	return nil
+}
+
+
+// readRawTimerExecutions: like readRawTimerEvents for a raw file that holds several executions (Begin lines)
+func readRawTimerExecutions(path string) ([]map[string]any, bool, error) {
+	b, err := os.ReadFile(path)
+	if err != nil {
+		return nil, false, err
+	}
+	var all []map[string]any
+	done := false
+	var cur []string
+	flush := func(i int) error {
+		if len(cur) == 0 {
+			return nil
+		}
+		tmp := fmt.Sprintf("%s.part%d", path, i)
+		if err := os.WriteFile(tmp, []byte(strings.Join(cur, "\n")+"\n"), 0o644); err != nil {
+			return err
+		}
+		evs, d, err := readRawTimerEvents(tmp)
+		os.Remove(tmp)
+		if err != nil {
+			return err
+		}
+		done = done || d
+		all = append(all, evs...)
+		cur = nil
+		return nil
+	}
+	for i, ln := range strings.Split(string(b), "\n") {
+		if strings.Contains(ln, `"e":"Begin"`) {
+			if err := flush(i); err != nil {
+				return nil, false, err
+			}
+		}
+		if ln != "" {
+			cur = append(cur, ln)
+		}
+	}
+	if err := flush(-1); err != nil {
+		return nil, false, err
+	}
+	return all, done, nil
+}
+
+// timerDefaultsChild: a process that uses the package as it comes up.  One future far ahead keeps the dispatcher asleep
+// towards it; then short futures (200 us) are scheduled one after the other, each the moment the previous one has
+// started - so that many of them arrive just when the dispatcher is between looking at the queue and going to sleep.
+// Every one must be started, with bounded lateness (executions of 250 futures; L = 400 ms, Q = 300 ms).
+func timerDefaultsChild(opt *Options) error {
+	f, err := os.OpenFile(opt.Out, os.O_CREATE|os.O_WRONLY|os.O_TRUNC|os.O_APPEND, 0o644)
+	if err != nil {
+		return err
+	}
+	var mu sync.Mutex
+	var pending [][]byte // the lines of the execution under way: written only if the host did not stall during it
+	emit := func(m map[string]any) {
+		b, _ := json.Marshal(m)
+		mu.Lock()
+		pending = append(pending, append(b, '\n'))
+		mu.Unlock()
+	}
+	start := time.Now()
+	now := func() int64 { return time.Since(start).Microseconds() }
+	var stall int64 // the largest overshoot of a 2 ms sleep since it was last reset, in microseconds
+	go func() {
+		last := time.Now()
+		for {
+			time.Sleep(2 * time.Millisecond)
+			n := time.Now()
+			if over := n.Sub(last).Microseconds() - 2000; over > atomic.LoadInt64(&stall) {
+				atomic.StoreInt64(&stall, over)
+			}
+			last = n
+		}
+	}()
+	far := timeout.Call(func() {}, time.Hour)
+	defer far.Cancel()
+	id := 0
+	stuck := false
+	judged := 0
+	for ex := 0; ex < 20 && judged < 12 && !stuck; ex++ {
+		atomic.StoreInt64(&stall, 0)
+		emit(map[string]any{"e": "Begin", "late": 1, "L": 400000, "Q": 300000, "idle": 30000000, "slack": 1000000, "maxw": 10, "unit": 0, "gap": 0})
+		for i := 0; i < 250; i++ {
+			id++
+			i := id
+			var started int32
+			tb := now()
+			timeout.Call(func() { emit(map[string]any{"e": "Start", "i": i, "t": now()}); atomic.StoreInt32(&started, 1) }, 200*time.Microsecond)
+			ta := now()
+			// SPIN until the function has run (no channel, no sleep: the next Call follows the return of the callback
+			// within a few hundred nanoseconds - while the dispatcher is on its way back to sleep)
+			for t0 := time.Now(); atomic.LoadInt32(&started) == 0; {
+				if time.Since(t0) > 700*time.Millisecond {
+					stuck = true
+					break
+				}
+			}
+			emit(map[string]any{"e": "Call", "i": i, "d": 200, "tb": tb, "ta": ta})
+			if stuck {
+				break
+			}
+		}
+		emit(map[string]any{"e": "Quiesce", "t": now()})
+		mu.Lock()
+		if atomic.LoadInt64(&stall) > 100000 {
+			stuck = false // the host stalled during this execution: not judged, not written
+		} else {
+			for _, b := range pending {
+				f.Write(b)
+			}
+			judged++
+		}
+		pending = nil
+		mu.Unlock()
+	}
+	mu.Lock()
+	f.Write([]byte("{\"e\":\"Done\"}\n"))
+	mu.Unlock()
 	return nil
 }
